@@ -5,6 +5,7 @@ from common import Fr, enc_q, dec_q, enc_f, dec_f, close, rng
 import gmgen
 
 LEAN_MODULE = 'PGM.Properties.C01'
+LEAN_EXTRA = ['PGM.Properties.C01B']
 TRUSTED = ['Lean 4.33 kernel', 'axioms: propext, Classical.choice, Quot.sound',
            'hand model PGM/Model/GM.lean (belief_propagation transcribed over the Factor model) tied to src/mbi/graphical_model.py by this correspondence run',
            'junction tree taken from the implementation and validated by the verified checkJT in the same run (C12)',
@@ -128,6 +129,7 @@ def run(res, drv, tier, seed):
             res.violation('correspondence', 'belief_propagation: ' + d + '; implementation agrees with the brute-force marginals',
                           dict(rp, model=resp['out'], stream='C01.bp'))
     range_stream(res, drv, tier, seed)
+    history_stream(res, tier, seed)
 
 
 def range_stream(res, drv, tier, seed):
@@ -165,12 +167,78 @@ def range_stream(res, drv, tier, seed):
                     return
 
 
+def history_stream(res, tier, seed):
+    """one model object, one parameter container: inference, then the container is changed IN PLACE (a table re-assigned, a table
+    updated with +=, cells set to -inf, the total re-assigned), then inference again on the very same container — every call must
+    return the marginals of the parameters it is given at that moment"""
+    r = rng(seed, 'C01-history')
+    for ci in range(20 if tier == 'quick' else 200):
+        dom, cl, kind = gmgen.gen_structure(r, 600)
+        total = float(r.choice([1, 10, 1000]))
+        model = gmgen.build_model(dom, cl, total, None)
+        pots = gmgen.gen_potentials(r, model, zero_p=0.05)
+        cv = gmgen.impl_potentials(pots)
+        cur = [(c, fd, list(v)) for c, fd, v in pots]
+        steps = []
+        canon = {'dom': dom, 'cliques': cl, 'history': steps, 'pots': gmgen.enc_pots(pots)}
+        bad = None
+        for step in range(r.randint(2, 4)):
+            if step > 0:
+                k = r.randrange(len(cur))
+                c, fd, vals = cur[k]
+                how = r.choice(['assign', 'iadd', 'kill-cell', 'total', 'assign'])
+                if how == 'assign':
+                    new = gmgen.gen_potentials(r, model, zero_p=0.05)[k][2]
+                    cur[k] = (c, fd, list(new))
+                    cv[tuple(c)] = gmgen.impl_potentials([cur[k]])[tuple(c)]
+                elif how == 'iadd':
+                    f = [r.choice([Fr(1, 2), Fr(2), Fr(5), Fr(1)]) for _ in vals]
+                    cur[k] = (c, fd, [a * b for a, b in zip(vals, f)])
+                    cv[tuple(c)] += gmgen.impl_potentials([(c, fd, f)])[tuple(c)]
+                elif how == 'kill-cell':
+                    j = r.randrange(len(vals))
+                    if sum(1 for v in vals if v > 0) > 1:
+                        vals = list(vals); vals[j] = Fr(0)
+                        cur[k] = (c, fd, vals)
+                        cv[tuple(c)].values.reshape(-1)[j] = -np.inf
+                else:
+                    total = float(r.choice([2, 50, 12345]))
+                    model.total = total
+                steps.append([how, list(c)])
+            joint = gmgen.brute_joint(dom, cur)
+            if sum(joint.values()) == 0:
+                break
+            with np.errstate(all='ignore'):
+                mu = model.belief_propagation(cv)
+            for c in model.cliques:
+                attrs_i = list(mu[c].domain.attrs)
+                spec = gmgen.brute_marginal(dom, joint, attrs_i, Fr(total))
+                got = [float(v) for v in mu[c].values.flatten()]
+                for kk, (sv, iv) in enumerate(zip(spec, got)):
+                    if not close(float(sv), iv, 1e-9, 1e-12 * total):
+                        bad = (f'call {step + 1} on one model / one parameter container after in-place changes {steps}: clique {list(c)} cell {kk}: '
+                               f'implementation {iv}, marginal of the product of the CURRENT potentials {float(sv)}')
+                        break
+                if bad:
+                    break
+            if bad:
+                break
+        res.case(canon, len(steps) >= 1)
+        res.count('history: inference repeated on one container after in-place changes')
+        if bad:
+            res.violation('failing-input', 'belief_propagation: ' + bad, {'request': canon, 'expected': bad}, key='bp:history')
+
+
 def search(res, tier, seed, broken):
     run(res, None, 'quick', seed + 1)
 
 
 def replay(res, drv, rp):
     q = rp['request']
+    if 'history' in q:
+        res.case(q)
+        history_stream(res, 'quick', rp.get('seed', 0))
+        return
     dom, cl, order = q['dom'], q['cliques'], q['order']
     total = Fr(q['total'])
     np.random.seed(rp.get('seed', 0) % 2**32)
